@@ -11,6 +11,7 @@ import (
 	"flag"
 	"fmt"
 	"go/types"
+	"math/rand"
 	"os"
 	"os/exec"
 	"path/filepath"
@@ -289,6 +290,7 @@ type Result struct {
 	Bounds      map[string]int64   `json:"bounds"`
 	SolverErr   string             `json:"solver_last_error,omitempty"`
 	MaxDepth    int                `json:"max_decision_depth"`
+	OkModels    []map[string][]uint64 `json:"ok_models"`
 }
 
 type worker struct {
@@ -333,6 +335,8 @@ func masterMain() {
 	vioSeen := map[string]int{}
 	var wg sync.WaitGroup
 	var startErr error
+	nOk := 0
+	rng := rand.New(rand.NewSource(*fSeed))
 	deadline := time.Time{}
 	if *fTimeout > 0 {
 		deadline = t0.Add(*fTimeout)
@@ -445,6 +449,14 @@ func masterMain() {
 					vioSeen[key]++
 					if vioSeen[key] <= 3 && len(res.Violations) < 200 {
 						res.Violations = append(res.Violations, v)
+					}
+				}
+				if pr.Outcome == "ok" && pr.Model != nil {
+					nOk++
+					if len(res.OkModels) < 256 {
+						res.OkModels = append(res.OkModels, pr.Model)
+					} else if j := rng.Intn(nOk); j < 256 {
+						res.OkModels[j] = pr.Model
 					}
 				}
 				if pr.Sample != "" && len(res.Samples) < 12 {
